@@ -264,6 +264,11 @@ class NucleationMonitor:
                 if J != 0:
                     F.add('C14.rate_zero_when_undersaturated', f'step {n} phase {p}: driving force {dG!r} <= 0 but nucleation rate {J!r}', q='rate')
                 continue
+            if be == 0 and J == 0 and Rc == 0 and Gc == 0:
+                # the model skips the rest of the nucleation calculation when the impingement rate is zero (backend could not give the
+                # precipitate composition); the recorded zeros are then 'not computed' placeholders, not a critical radius
+                cnt['skipped_zero_impingement'] += 1
+                continue
             cnt['positive_dG_steps'] += 1
             clamped = Rc <= pp.Rmin * (1 + 1e-12)
             gb_site = self.sites[p] in refs.SITE_KMAX
@@ -312,7 +317,7 @@ def execute(rec):
         sig = {rec['holder']}
         nt = run_machine(rec, F, cnt, sig)
         return core.result(F, sig='machine:' + ','.join(sorted(sig)), nontrivial=nt, counters=cnt, digest='')
-    cnt = {k: 0 for k in ('steps', 'site_checks', 'positive_dG_steps', 'formula_checks', 'runs_real', 'runs_stub', 'sim_time', 'capped')}
+    cnt = {k: 0 for k in ('steps', 'site_checks', 'positive_dG_steps', 'formula_checks', 'runs_real', 'runs_stub', 'sim_time', 'capped', 'skipped_zero_impingement')}
     cfg = rec['cfg']
     m, backend = W.build_model(cfg, keep_log=False)
     cnt['runs_real' if cfg['backend'].startswith('real_') else 'runs_stub'] = 1
